@@ -1,5 +1,6 @@
 (* BaseFee/Proofs.v — bounds of the base fee recurrence. *)
-From Coq Require Import ZArith Lia.
+From Coq Require Import ZArith Lia List.
+Import ListNotations.
 From Verif Require Import BaseFee.Model.
 Open Scope Z_scope.
 
@@ -101,4 +102,32 @@ Proof.
   - assert (gu < t) by (pose proof (Zgt_cases gu t) as G; rewrite E5 in G; lia).
     pose proof (scaled_le pb (t - gu) t ltac:(lia) ltac:(lia) Ht) as [Hlo Hhi].
     eexists. split; [reflexivity|]. repeat split; lia.
+Qed.
+
+(* inductive closure: along any chain of post-fork headers whose base fees are produced by the recurrence (the fork block itself
+   carries initial_base_fee, basefee_first_block), every base fee is >= the floor — the precondition `initial_base_fee <= pb` of
+   basefee_bounds is therefore an invariant of the chain, not an extra assumption *)
+Fixpoint chain_fees (galactica pnum pb : Z) (hs : list (Z * Z)) : option (list Z) :=
+  match hs with
+  | [] => Some []
+  | (gl, gu) :: t =>
+    match calc_base_fee galactica pnum gl gu pb with
+    | BfFee n => match chain_fees galactica (pnum + 1) n t with Some l => Some (n :: l) | None => None end
+    | _ => None
+    end
+  end.
+
+Lemma basefee_chain_lemma galactica hs : forall pnum pb,
+  0 <= galactica -> galactica < pnum + 1 -> pnum + Z.of_nat (length hs) < two32 ->
+  Forall (fun h => min_gas_limit <= fst h <= max_nowrap_gas_limit /\ 0 <= snd h <= fst h) hs ->
+  initial_base_fee <= pb ->
+  exists fs, chain_fees galactica pnum pb hs = Some fs /\ length fs = length hs /\ Forall (fun f => initial_base_fee <= f) fs.
+Proof.
+  induction hs as [|[gl gu] t IH]; intros pnum pb Hg Hn Hl HF Hpb.
+  - exists []. repeat split; constructor.
+  - inversion HF as [|? ? [H1 H2] HF']; subst. cbn [fst snd] in *. cbn [length] in Hl. rewrite Nat2Z.inj_succ in Hl.
+    destruct (basefee_bounds_lemma galactica pnum gl gu pb Hg ltac:(lia) H1 H2 Hpb) as [n [E [Hn1 _]]].
+    cbn [chain_fees]. rewrite E.
+    destruct (IH (pnum + 1) n Hg ltac:(lia) ltac:(lia) HF' Hn1) as [fs [E2 [L F]]]. rewrite E2.
+    exists (n :: fs). split; [reflexivity|]. split; [cbn; lia|constructor; assumption].
 Qed.
